@@ -1531,8 +1531,6 @@ class FlowIR(object):
                 for ref in update_refs:
                     # VV: only match whole references (e.g. `A:ref` must not match inside `BA:ref`)
                     expression = re.compile(r"(?<![\w.#/-])%s(?![\w])((?:/[\w.*]+)+,*)?" % re.escape(ref))
-                    orig_string = string
-
                     def expand(m, ref=ref):
                         # Check if we have a path after this occurrence of the reference
                         path = m.group(1)
@@ -1549,11 +1547,9 @@ class FlowIR(object):
 
                         return separator.join(["%s%s" % (el, path) for el in translation_map[ref]])
 
+                    # VV: both spellings may be present; a whole-reference pattern cannot match the relative spelling
+                    # inside the text that was just inserted for the absolute one (`stage<idx>.` precedes it)
                     string = expression.sub(expand, string)
-                    if string != orig_string:
-                        # VV: if we replaced the Absolute ref we must skip replacing the relative ref becuase
-                        # we'll end up with stage<idx>.stage<idx>.<component name>
-                        break
 
             return string
 
